@@ -233,7 +233,7 @@ pub fn run(args: &Args, rep: &mut Report) {
     // ---- exhaustive part: all (reference, target) over small alphabets ----
     // alphabets: {A,C,N} up to len L1, {A,T,N,?} up to L2; min match 5..8 (key length 2..5)
     let (l1, l2) = if miri {
-        (3usize, 2usize)
+        (2usize, 2usize)
     } else if args.tier_thorough {
         (6, 5)
     } else {
@@ -255,7 +255,7 @@ pub fn run(args: &Args, rep: &mut Report) {
                     continue;
                 }
                 for tl in 1..=maxlen {
-                    for mm in 5..=8u32 {
+                    for mm in 5..=(if miri { 6u32 } else { 8u32 }) {
                         // skip most min-match values for the longest strings in quick mode
                         if !args.tier_thorough && !miri && tl == maxlen && mm > 6 {
                             continue;
@@ -282,7 +282,7 @@ pub fn run(args: &Args, rep: &mut Report) {
     // ---- N runs of length 1..6 at every position of short ACGT strings with real matches ----
     {
         let mut rng = Rng::derive(args.seed, 0xC09, 1);
-        let base_n = if miri { 2 } else if args.tier_thorough { 400 } else { 40 };
+        let base_n = if miri { 1 } else if args.tier_thorough { 400 } else { 40 };
         for b in 0..base_n {
             if !args.mine(b) {
                 continue;
@@ -290,6 +290,9 @@ pub fn run(args: &Args, rep: &mut Report) {
             let len = rng.usize(8, if miri { 14 } else { 40 });
             let reference = random_seq(&mut rng, len, false);
             for run in 1..=6usize {
+                if miri && run % 3 != 1 {
+                    continue;
+                }
                 for pos in 0..=len {
                     let mut t = reference.clone();
                     for _ in 0..run {
